@@ -1,11 +1,16 @@
 mod fw;
+mod gram;
+mod inputs;
+mod refsem;
+mod vmrun;
+mod c01;
 mod c10;
 mod c11;
 
 use fw::*;
 
 fn defs() -> Vec<CheckDef> {
-    vec![c10::DEF, c11::DEF]
+    vec![c01::DEF, c10::DEF, c11::DEF]
 }
 
 fn arg_after(args: &[String], flag: &str) -> Option<String> {
@@ -28,7 +33,8 @@ fn main() {
             };
             let tier = tier_of(arg_after(&args, "--tier"));
             let seed = arg_after(&args, "--seed").and_then(|s| s.parse::<i64>().ok()).map(|v| v as u64).unwrap_or_else(env_seed);
-            std::process::exit(driver_main(def, tier, seed));
+            let ev = arg_after(&args, "--evidence");
+            std::process::exit(driver_main(def, tier, seed, ev));
         }
         Some("worker") => {
             let id = args.get(2).expect("property id");
